@@ -216,5 +216,12 @@ def run(ctx):
         if rule in ("R14.1", "R14.2", "R14.3"):
             # R01.8 (shared with C14): the built-in claims payload is written and read through the same member table
             ctx.add("R01.8", "C01/claims-codec/" + k.split("/", 1)[-1], ok, detail, site)
+_run_c01b = run
+def run(ctx):
+    _run_c01b(ctx)
+    import c02
+    # R01.9 (shared manifest scan): the JSON payload codec is serde_json as configured by default
+    c02.check_manifest_features(ctx, c02.DENY_JSON, "R01.9", "C01/manifest-features")
+FLOORS["R01.9"] = 1
 FLOORS["R01.7"] = 2
 FLOORS["R01.8"] = 4
